@@ -156,6 +156,7 @@ func S[C ~chan T | ~chan<- T, T any](c C) Case {
 // ---------------------------------------------------------------- sim
 
 type Sim struct {
+	inInvariant bool
 	ctxSeq  int
 	openCtx map[int]openCtx
 	cfg     Config
@@ -452,7 +453,10 @@ func (s *Sim) loop(root *G) {
 			return
 		}
 		if s.invariant != nil {
-			if class, detail := s.invariant(); class != "" {
+			s.inInvariant = true // (the invariant runs on the scheduler: statement-level yields in code it calls are no-ops)
+			class, detail := s.invariant()
+			s.inInvariant = false
+			if class != "" {
 				s.violation = &Violation{Class: class, Detail: detail}
 				return
 			}
@@ -1148,7 +1152,7 @@ func Go(site, name string, fn func()) {
 // Yield is a pure preemption point.
 func Yield(site string) {
 	s := cur
-	if s == nil {
+	if s == nil || s.inInvariant {
 		return
 	}
 	g := s.me()
